@@ -330,6 +330,15 @@ class Scheduler:
                 if self.log_sched:
                     self.schedule_names.append(nxt.name)
                 return nxt
+            idle = getattr(self.strategy, "on_idle", None)
+            if idle is not None:
+                try:
+                    if idle(self):
+                        continue
+                except Divergence as d:
+                    self.divergence = str(d)
+                    self.aborting = True
+                    return self.main
             timers = [x for x in self.tasks if x.state == "parked" and x.wake is not None and not x.manual]
             if timers:
                 w = min(x.wake for x in timers)
